@@ -235,23 +235,16 @@ Qed.
 Lemma firstn_length_le : forall A n (l : list A), n <= length l -> length (firstn n l) = n.
 Proof. intros. rewrite firstn_length. lia. Qed.
 
-Lemma start_mp_spec : forall mime bnd st,
+Lemma start_mp_spec : forall mime b bad st,
   Inv st ->
-  Inv (fst (start_mp mime bnd st)) /\ (err st = true -> err (fst (start_mp mime bnd st)) = true) /\
-  depth (fst (start_mp mime bnd st)) = S (depth st).
+  Inv (start_mp mime b bad st) /\ (err st = true -> err (start_mp mime b bad st) = true) /\
+  depth (start_mp mime b bad st) = S (depth st).
 Proof.
-  intros mime bnd st HI. unfold start_mp.
-  set (st0 := set_rbs st (tl (rbs st))).
-  assert (HI0 : Inv st0) by (destruct HI as (A & B & C & D); unfold st0, Inv; cbn; auto).
-  assert (Hm0 : err st0 = err st) by reflexivity.
-  assert (Hd0 : depth st0 = depth st) by reflexivity.
-  destruct (match bnd with [] => (hd [] (rbs st), st0) | _ :: _ => _ end) as [b st1] eqn:Hb.
+  intros mime b bad st HI. unfold start_mp.
+  set (st1 := if bad then set_err st true else st).
   assert (H1 : Inv st1 /\ (err st = true -> err st1 = true) /\ depth st1 = depth st).
-  { destruct bnd as [|x xs].
-    - inversion Hb; subst. auto.
-    - destruct (boundary_valid (x :: xs)); inversion Hb; subst; [auto|].
-      destruct HI0 as (A & B & C & D). unfold Inv; cbn. auto. }
-  destruct H1 as (HI1 & Hm1 & Hd1). clear Hb.
+  { unfold st1. destruct bad; [|auto]. destruct HI as (A & B & C & D). unfold Inv; cbn. auto. }
+  destruct H1 as (HI1 & Hm1 & Hd1).
   set (w := mkmpw b None).
   set (st2 := set_mps st1 (firstn (depth st1) (mps st1) ++ [w])).
   assert (HI2 : Inv st2 /\ err st2 = err st1 /\ depth st2 = depth st1 /\ length (mps st2) = S (depth st1)).
@@ -260,13 +253,13 @@ Proof.
   destruct HI2 as (HI2 & He2 & Hd2 & Hl2).
   destruct (Nat.eqb_spec (depth st2) 0) as [Hz|Hnz].
   - destruct (write_string_ext (bs "Content-Type: " ++ (bs "multipart/" ++ mime ++ bs ";" ++ crlf ++ bs " boundary=" ++ b)) st2) as (E & D & M & PWs & P).
-    destruct (E HI2) as [HI3 Hm3]. cbn [fst].
+    destruct (E HI2) as [HI3 Hm3].
     set (st3 := write_string _ st2) in *.
     rewrite (Inv_panicked _ HI3).
     destruct HI3 as (A & B & C & F). unfold Inv; cbn. rewrite ?M, ?D. ssplit; auto; try lia;
     try (intros He; apply Hm3; rewrite He2; auto).
   - destruct (new_part_spec [(bs "Content-Type", [bs "multipart/" ++ mime ++ bs ";" ++ crlf ++ bs " boundary=" ++ b])] st2 HI2) as (HI3 & Hm3 & Hd3 & _); [lia|].
-    cbn [fst]. set (st3 := new_part _ st2) in *.
+    set (st3 := new_part _ st2) in *.
     rewrite (Inv_panicked _ HI3).
     assert (Hl3 : length (mps st3) = length (mps st2)).
     { unfold st3, new_part. assert (Hi : depth st2 - 1 < length (mps st2)) by lia.
@@ -362,20 +355,16 @@ Proof.
     unfold keeps. ssplit; auto; try lia; try (intros He; apply Hm2; auto).
 Qed.
 
-Lemma file_headers_prod : forall w a f, f_prod (fst (file_headers w a f)) = f_prod f.
-Proof. intros w a f. reflexivity. Qed.
+Definition has_failing_rfile (fe : file * enc) : bool := pfail (f_prod (fst fe)).
 
-Lemma add_files_spec : forall wenc att files st,
+Lemma add_files_spec : forall files st,
   Inv st ->
-  keeps st (fst (add_files wenc att files st)) /\
-  (existsb has_failing_file files = true -> err (fst (add_files wenc att files st)) = true).
+  keeps st (add_files files st) /\
+  (existsb has_failing_rfile files = true -> err (add_files files st) = true).
 Proof.
-  intros wenc att files. induction files as [|f rest IH]; intros st HI; cbn [add_files].
+  intros files. induction files as [|[f' e] rest IH]; intros st HI; cbn [add_files].
   - unfold keeps. cbn. ssplit; auto. discriminate.
   - rewrite (Inv_panicked _ HI).
-    destruct (file_headers wenc att f) as [f' e] eqn:Hfh.
-    assert (Hprod : f_prod f' = f_prod f).
-    { pose proof (file_headers_prod wenc att f) as Hq. rewrite Hfh in Hq. exact Hq. }
     set (hdrs := map _ (f_hdr f')).
     set (st1 := if Nat.eqb (depth st) 0 then _ else _).
     assert (K1 : keeps st st1 /\ (err st1 = false -> depth st1 = 0 \/ exists i, pw st1 = Some i /\ i < length (mps st1))).
@@ -391,16 +380,15 @@ Proof.
         split; [unfold keeps; auto|]. intros He. right. auto. }
     destruct K1 as ((HI1 & Hm1 & Hd1) & Hpw1).
     set (st2 := if err st1 then st1 else st1 |> write_body (f_prod f') e).
-    assert (K2 : keeps st1 st2 /\ (pfail (f_prod f) = true -> err st2 = true)).
+    assert (K2 : keeps st1 st2 /\ (pfail (f_prod f') = true -> err st2 = true)).
     { unfold st2. destruct (err st1) eqn:He1; [unfold keeps; ssplit; auto|].
       rewrite andthen_run by (apply HI1).
       destruct (write_body_spec (f_prod f') e st1 HI1 (Hpw1 eq_refl)) as (HI2 & Hm2 & Hp2 & Hd2).
-      unfold keeps. rewrite Hprod in Hp2. ssplit; fin. rewrite Hprod. exact Hp2. }
+      unfold keeps. ssplit; fin. }
     destruct K2 as ((HI2 & Hm2 & Hd2) & Hp2).
-    specialize (IH st2 HI2). destruct (add_files wenc att rest st2) as [st3 rest'] eqn:Hrec.
-    cbn [fst] in *. destruct IH as ((HI3 & Hm3 & Hd3) & Hp3).
+    destruct (IH st2 HI2) as ((HI3 & Hm3 & Hd3) & Hp3).
     unfold keeps. ssplit; auto; try lia.
-    cbn [existsb]. unfold has_failing_file at 1. intros Hex. apply orb_true_iff in Hex.
+    cbn [existsb]. unfold has_failing_rfile at 1. cbn [fst]. intros Hex. apply orb_true_iff in Hex.
     destruct Hex as [Hx|Hx]; [apply Hm3, Hp2, Hx|apply Hp3, Hx].
 Qed.
 
@@ -420,13 +408,13 @@ Proof.
     destruct Hex as [Hx|Hx]; [apply Hm2, Hp1, Hx|apply Hp2, Hx].
 Qed.
 
-Lemma open_mp_spec : forall c mime cached st,
-  Inv st -> Inv (fst (open_mp c mime cached st)) /\ (err st = true -> err (fst (open_mp c mime cached st)) = true).
+Lemma open_mp_spec : forall c mime b bad st,
+  Inv st -> Inv (open_mp c mime b bad st) /\ (err st = true -> err (open_mp c mime b bad st) = true).
 Proof.
-  intros c mime cached st HI. unfold open_mp. destruct c; [|auto].
+  intros c mime b bad st HI. unfold open_mp. destruct c; [|auto].
   rewrite (Inv_panicked _ HI).
-  destruct (start_mp_spec mime cached st HI) as (HI1 & Hm1 & Hd1).
-  destruct (start_mp mime cached st) as [s b]. cbn [fst] in *.
+  destruct (start_mp_spec mime b bad st HI) as (HI1 & Hm1 & Hd1).
+  set (s := start_mp mime b bad st) in *.
   destruct (Nat.eqb (depth s) 1); [|auto].
   rewrite andthen_run by (apply HI1).
   destruct (write_string_ext Gen.double_newline s) as (E & _). destruct (E HI1) as [HI2 Hm2]. auto.
@@ -439,14 +427,14 @@ Proof.
   rewrite andthen_run by (apply HI). destruct (stop_mp_spec st HI) as (A & B & _). auto.
 Qed.
 
-Lemma add_files_safe_spec : forall wenc att files st,
+Lemma add_files_safe_spec : forall files st,
   Inv st ->
-  Inv (fst (add_files_safe wenc att files st)) /\
-  (err st = true -> err (fst (add_files_safe wenc att files st)) = true) /\
-  (existsb has_failing_file files = true -> err (fst (add_files_safe wenc att files st)) = true).
+  Inv (add_files_safe files st) /\
+  (err st = true -> err (add_files_safe files st) = true) /\
+  (existsb has_failing_rfile files = true -> err (add_files_safe files st) = true).
 Proof.
-  intros wenc att files st HI. unfold add_files_safe. rewrite (Inv_panicked _ HI).
-  destruct (add_files_spec wenc att files st HI) as ((A & B & _) & C). auto.
+  intros files st HI. unfold add_files_safe. rewrite (Inv_panicked _ HI).
+  destruct (add_files_spec files st HI) as ((A & B & _) & C). auto.
 Qed.
 
 Lemma headers_spec : forall gen m st,
@@ -464,38 +452,38 @@ Proof.
   destruct (frame_keeps _ _ HI F) as (A & B & _). auto.
 Qed.
 
-Definition msg_has_failing_producer (m : msg) : bool :=
-  existsb has_failing_part (m_parts m) || existsb has_failing_file (m_embeds m) || existsb has_failing_file (m_attach m).
+Definition rmsg_has_failing_producer (z : rmsg) : bool :=
+  existsb has_failing_part (m_parts (z_msg z)) || existsb has_failing_rfile (z_embeds z) || existsb has_failing_rfile (z_attach z).
 
-Lemma write_msg_spec : forall date msgid m st,
+Lemma write_resolved_spec : forall z st,
   Inv st ->
-  Inv (fst (write_msg date msgid m st)) /\
-  (err st = true -> err (fst (write_msg date msgid m st)) = true) /\
-  (msg_has_failing_producer m = true -> err (fst (write_msg date msgid m st)) = true).
+  Inv (write_resolved z st) /\
+  (err st = true -> err (write_resolved z st) = true) /\
+  (rmsg_has_failing_producer z = true -> err (write_resolved z st) = true).
 Proof.
-  intros date msgid m st HI. unfold write_msg.
-  destruct (headers_spec (add_defaults date msgid m) m st HI) as (HI4 & Hm4).
+  intros z st HI. unfold write_resolved. set (m := z_msg z).
+  destruct (headers_spec (m_gen m) m st HI) as (HI4 & Hm4).
   set (st4 := write_addr_headers m _) in *.
-  destruct (open_mp_spec (has_mixed m) Gen.mime_mixed (m_bmixed m) st4 HI4) as (HI5 & Hm5).
-  destruct (open_mp (has_mixed m) Gen.mime_mixed (m_bmixed m) st4) as [st5 bm]. cbn [fst] in *.
-  destruct (open_mp_spec (has_related m) Gen.mime_related (m_brelated m) st5 HI5) as (HI6 & Hm6).
-  destruct (open_mp (has_related m) Gen.mime_related (m_brelated m) st5) as [st6 br]. cbn [fst] in *.
-  destruct (open_mp_spec (has_alt m) Gen.mime_alternative (m_balt m) st6 HI6) as (HI7 & Hm7).
-  destruct (open_mp (has_alt m) Gen.mime_alternative (m_balt m) st6) as [st7 ba]. cbn [fst] in *.
+  destruct (open_mp_spec (has_mixed m) Gen.mime_mixed (m_bmixed m) (z_bad_mixed z) st4 HI4) as (HI5 & Hm5).
+  set (st5 := open_mp (has_mixed m) _ _ _ st4) in *.
+  destruct (open_mp_spec (has_related m) Gen.mime_related (m_brelated m) (z_bad_related z) st5 HI5) as (HI6 & Hm6).
+  set (st6 := open_mp (has_related m) _ _ _ st5) in *.
+  destruct (open_mp_spec (has_alt m) Gen.mime_alternative (m_balt m) (z_bad_alt z) st6 HI6) as (HI7 & Hm7).
+  set (st7 := open_mp (has_alt m) _ _ _ st6) in *.
   destruct (write_parts_spec (m_charset m) (m_parts m) st7 HI7) as ((HI8 & Hm8 & _) & Hp8).
   fold (write_parts m st7) in *.
   destruct (close_mp_spec (has_alt m) (write_parts m st7) HI8) as (HI9 & Hm9).
   set (st9 := close_mp (has_alt m) (write_parts m st7)) in *.
-  destruct (add_files_safe_spec (m_wenc m) false (m_embeds m) st9 HI9) as (HI10 & Hm10 & Hp10).
-  destruct (add_files_safe (m_wenc m) false (m_embeds m) st9) as [st10 embeds']. cbn [fst] in *.
+  destruct (add_files_safe_spec (z_embeds z) st9 HI9) as (HI10 & Hm10 & Hp10).
+  set (st10 := add_files_safe (z_embeds z) st9) in *.
   destruct (close_mp_spec (has_related m) st10 HI10) as (HI11 & Hm11).
   set (st11 := close_mp (has_related m) st10) in *.
-  destruct (add_files_safe_spec (m_wenc m) true (m_attach m) st11 HI11) as (HI12 & Hm12 & Hp12).
-  destruct (add_files_safe (m_wenc m) true (m_attach m) st11) as [st12 attach']. cbn [fst] in *.
+  destruct (add_files_safe_spec (z_attach z) st11 HI11) as (HI12 & Hm12 & Hp12).
+  set (st12 := add_files_safe (z_attach z) st11) in *.
   destruct (close_mp_spec (has_mixed m) st12 HI12) as (HI13 & Hm13).
-  cbn [fst]. ssplit; [exact HI13| |].
+  ssplit; [exact HI13| |].
   - intros He. auto 20.
-  - unfold msg_has_failing_producer. intros Hex.
+  - unfold rmsg_has_failing_producer. fold m. intros Hex.
     apply orb_true_iff in Hex. destruct Hex as [Hex|Hx].
     + apply orb_true_iff in Hex. destruct Hex as [Hx|Hx].
       * apply Hm13, Hm12, Hm11, Hm10, Hm9, Hp8, Hx.
@@ -503,8 +491,37 @@ Proof.
     + apply Hm13, Hp12, Hx.
 Qed.
 
-Lemma Inv_init : forall k rb, accepted k = [] -> failed k = false -> Inv (mw_init k rb).
-Proof. intros k rb Ha Hf. unfold Inv, mw_init; cbn. rewrite Ha, Hf. ssplit; auto; discriminate. Qed.
+Definition msg_has_failing_producer (m : msg) : bool :=
+  existsb has_failing_part (m_parts m) || existsb has_failing_file (m_embeds m) || existsb has_failing_file (m_attach m).
+
+Lemma existsb_map_file_headers : forall w a files,
+  existsb has_failing_rfile (map (file_headers w a) files) = existsb has_failing_file files.
+Proof. intros w a files. induction files as [|f r IH]; cbn; [reflexivity|]. now rewrite IH. Qed.
+
+Lemma resolve_failing : forall date msgid rb m,
+  rmsg_has_failing_producer (resolve date msgid rb m) = msg_has_failing_producer m.
+Proof.
+  intros date msgid rb m. unfold resolve.
+  destruct (if has_mixed m then _ else _) as [bm badm].
+  destruct (if has_related m then _ else _) as [br badr].
+  destruct (if has_alt m then _ else _) as [ba bada].
+  unfold rmsg_has_failing_producer, msg_has_failing_producer. cbn.
+  now rewrite !existsb_map_file_headers.
+Qed.
+
+Lemma write_msg_spec : forall date msgid rb m st,
+  Inv st ->
+  Inv (fst (write_msg date msgid rb m st)) /\
+  (err st = true -> err (fst (write_msg date msgid rb m st)) = true) /\
+  (msg_has_failing_producer m = true -> err (fst (write_msg date msgid rb m st)) = true).
+Proof.
+  intros date msgid rb m st HI. unfold write_msg. cbn [fst].
+  destruct (write_resolved_spec (resolve date msgid rb m) st HI) as (A & B & C).
+  ssplit; auto. intros H. apply C. now rewrite resolve_failing.
+Qed.
+
+Lemma Inv_init : forall k, accepted k = [] -> failed k = false -> Inv (mw_init k).
+Proof. intros k Ha Hf. unfold Inv, mw_init; cbn. rewrite Ha, Hf. ssplit; auto; discriminate. Qed.
 
 (* ---- the C12 statements ---- *)
 Definition fresh_sink (k : sink) : Prop := accepted k = [] /\ failed k = false.
@@ -513,27 +530,27 @@ Theorem write_to_no_panic : forall date msgid rb m k,
   fresh_sink k -> r_panic (write_to date msgid rb m k) = false.
 Proof.
   intros date msgid rb m k [Ha Hf]. unfold write_to.
-  destruct (write_msg_spec date msgid m (mw_init k rb) (Inv_init k rb Ha Hf)) as (HI & _).
-  destruct (write_msg date msgid m (mw_init k rb)) as [st m']. cbn [fst] in HI. cbn. apply HI.
+  destruct (write_msg_spec date msgid rb m (mw_init k) (Inv_init k Ha Hf)) as (HI & _).
+  destruct (write_msg date msgid rb m (mw_init k)) as [st m']. cbn [fst] in HI. cbn. apply HI.
 Qed.
 
 Theorem write_to_count : forall date msgid rb m k,
   fresh_sink k -> r_n (write_to date msgid rb m k) = length (r_out (write_to date msgid rb m k)).
 Proof.
   intros date msgid rb m k [Ha Hf]. unfold write_to.
-  destruct (write_msg_spec date msgid m (mw_init k rb) (Inv_init k rb Ha Hf)) as (HI & _).
-  destruct (write_msg date msgid m (mw_init k rb)) as [st m']. cbn [fst] in HI. cbn. apply HI.
+  destruct (write_msg_spec date msgid rb m (mw_init k) (Inv_init k Ha Hf)) as (HI & _).
+  destruct (write_msg date msgid rb m (mw_init k)) as [st m']. cbn [fst] in HI. cbn. apply HI.
 Qed.
 
 (* the destination failed at some point (it rejected at least one Write) => error reported *)
 Theorem write_to_sink_failure_reported : forall date msgid rb m k,
   fresh_sink k ->
-  failed (snk (fst (write_msg date msgid m (mw_init k rb)))) = true ->
+  failed (snk (fst (write_msg date msgid rb m (mw_init k)))) = true ->
   r_err (write_to date msgid rb m k) = true.
 Proof.
   intros date msgid rb m k [Ha Hf] Hfail. unfold write_to.
-  destruct (write_msg_spec date msgid m (mw_init k rb) (Inv_init k rb Ha Hf)) as (HI & _).
-  destruct (write_msg date msgid m (mw_init k rb)) as [st m']. cbn [fst] in *. cbn. apply HI, Hfail.
+  destruct (write_msg_spec date msgid rb m (mw_init k) (Inv_init k Ha Hf)) as (HI & _).
+  destruct (write_msg date msgid rb m (mw_init k)) as [st m']. cbn [fst] in *. cbn. apply HI, Hfail.
 Qed.
 
 Theorem write_to_producer_failure_reported : forall date msgid rb m k,
@@ -541,6 +558,6 @@ Theorem write_to_producer_failure_reported : forall date msgid rb m k,
   r_err (write_to date msgid rb m k) = true.
 Proof.
   intros date msgid rb m k [Ha Hf] Hp. unfold write_to.
-  destruct (write_msg_spec date msgid m (mw_init k rb) (Inv_init k rb Ha Hf)) as (_ & _ & H).
-  destruct (write_msg date msgid m (mw_init k rb)) as [st m']. cbn [fst] in *. cbn. apply H, Hp.
+  destruct (write_msg_spec date msgid rb m (mw_init k) (Inv_init k Ha Hf)) as (_ & _ & H).
+  destruct (write_msg date msgid rb m (mw_init k)) as [st m']. cbn [fst] in *. cbn. apply H, Hp.
 Qed.
